@@ -50,4 +50,25 @@ HintTheorem ==
         E == SetToSortSeq(reps, LAMBDA a, b : Lt(cmp, a, b))
     IN \A h \in 1..Len(E) + 1 : \A v \in Keys : HintOK(cmp, E, h, v)
 HintInv == HintTheorem
+
+\* C03 on the design of FlatSet::merge: for every destination / source content over Keys and every pair of comparator
+\* states, mergeUnordered gives the std::set result (destination and what stays in the source); for a stateless
+\* comparator (both operands ordered alike, no coarse classes) the single pass algorithm does too
+MergeTheorem ==
+  \A cmD \in Cms : \A cmS \in Cms : \A SD \in SUBSET Keys : \A SS \in SUBSET Keys :
+    LET cd == CmpOf(cmD)
+        A == SortedReps(cd, SD)
+        B == SortedReps(CmpOf(cmS), SS)
+        want == MergeStd(cd, A, B)
+    IN /\ DMergeUnordered(cd, A, B) = want
+       /\ (cmD = cmS /\ cmD \in {0, 1} => DMergeOrdered(cd, A, B, 1, 1) = want)
+MergeInv == MergeTheorem
+\* what the pinned tree assumed (F13): the single pass algorithm for operands ordered by different comparator objects
+MergeOrderedWrong ==
+  \A cmD \in Cms : \A cmS \in Cms : \A SD \in SUBSET Keys : \A SS \in SUBSET Keys :
+    LET cd == CmpOf(cmD)
+        A == SortedReps(cd, SD)
+        B == SortedReps(CmpOf(cmS), SS)
+    IN DMergeOrdered(cd, A, B, 1, 1) = MergeStd(cd, A, B)
+MergeF13Inv == MergeOrderedWrong
 =============================================================================
